@@ -55,6 +55,71 @@ def run_online(driver, backend, nsteps, hook=None, tid=0, src="random"):
             "steps": tsteps, "abort": abort, "src": src, "ops": ops}
 
 
+def run_online_multi(driver, roles, nsteps, hook=None, tid=0, src="random", pairname="C15.pair", prehook=None):
+    """Drive several indexes in lockstep with the same requests.  roles: list of
+    (backend, skip_ops) - the first is the primary (the driver sees its observations);
+    an index does not execute the ops named in its skip_ops (logged as "Skip").
+    Returns one trace per role; the primary carries pairid/pairname of the second."""
+    default0, rules0 = dict(driver.default), list(driver.rules)
+    n = len(roles)
+    logs = [[] for _ in roles]
+    ixs = []
+    ops = []
+    try:
+        for j, (be, skip) in enumerate(roles):
+            del impl.WRITE_LOG[:]
+            ix = impl.Index(be, default0, rules0)
+            ixs.append(ix)
+            raw_t, raw_l = ix.raw()
+            w = list(impl.WRITE_LOG)
+            del impl.WRITE_LOG[:]
+            obs = impl.observe(ix)
+            st = {"op": "Init", "w": w, "rawT": raw_t, "rawL": raw_l, "obs": obs}
+            if hook:
+                st["q"] = hook(ix, driver, 0, None, None)
+            logs[j].append(st)
+        alive = True
+        for i in range(nsteps):
+            if not alive:
+                break
+            op = driver.draw(logs[0][-1]["obs"])
+            ops.append(op)
+            for j, (be, skip) in enumerate(roles):
+                ix = ixs[j]
+                del impl.WRITE_LOG[:]
+                if op["op"] in skip:
+                    eff = {"op": "Skip"}
+                    res = {"exc": "", "pages": 0, "created": [], "ret": None}
+                else:
+                    eff = op
+                    res = impl.apply_op(ix, op)
+                w = list(impl.WRITE_LOG)
+                pre = prehook(ix) if prehook else None     # before the harness touches the files
+                raw_t, raw_l = ix.raw()
+                del impl.WRITE_LOG[:]
+                obs = impl.observe(ix)
+                st = {"op": eff, "res": res, "w": w, "rawT": raw_t, "rawL": raw_l, "obs": obs}
+                if hook and "err" not in obs:
+                    st["q"] = hook(ix, driver, i + 1, eff, res)
+                    if pre:
+                        st["q"].update(pre)
+                logs[j].append(st)
+                if j == 0 and hasattr(driver, "feedback"):
+                    driver.feedback(op, res)
+                if res["exc"] == "RequestTimeout" or "err" in obs:
+                    alive = False
+    finally:
+        for ix in ixs:
+            ix.destroy()
+    out = []
+    for j, (be, skip) in enumerate(roles):
+        tsteps, abort = concrete_steps_to_trace(logs[j])
+        out.append({"id": tid + j, "backend": be, "def": default0, "rules": rules0, "steps": tsteps,
+                    "abort": abort, "src": src, "ops": [o for o in ops],
+                    "pairid": (tid + 1) if j == 0 and n > 1 else -1, "pairname": pairname})
+    return out
+
+
 def run_fixed(backend, default, rules, ops, hook=None, tid=0, src="fixed", folder=None):
     steps = impl.run_history(backend, default, rules, ops,
                              hook=(lambda ix, i, op, res: hook(ix, None, i, op, res)) if hook else None,
